@@ -202,10 +202,19 @@ def _interpret(impl, case):
         else:
             na, nb = impl.build(op[1]), impl.build(op[1])
             cur = na.value
+            # ["sf", spec]: the update arrives while the OUTGOING start cannot produce its value; the update
+            # concerns the new start only and must go through all the same
+            outgoing = in_force if (op[0] == "sf" and hasattr(in_force[0], "broken")) else ()
             in_force = (na, nb)
             try:
-                A.set_sequence_start(na)
-                B.set_sequence_start(nb)
+                for s_ in outgoing:
+                    s_.broken = True
+                try:
+                    A.set_sequence_start(na)
+                    B.set_sequence_start(nb)
+                finally:
+                    for s_ in outgoing:
+                        s_.broken = False
             except Exception as e:  # noqa
                 raise Violation("nth_equals_start_plus_n_mod_10", cut(i), "update accepted",
                                 f"raised {type(e).__name__}: {e}", f"after {n} requests")
@@ -404,7 +413,7 @@ def _strategy():
         st.builds(lambda v: ["flaky", v], st.one_of(st.integers(0, 1756), boundary)),
     )
     setop = st.builds(lambda s: ["s", s], spec)
-    op = st.one_of(st.just("n"), st.just("n"), st.just("n"), setop, st.just("nf"),
+    op = st.one_of(st.just("n"), st.just("n"), st.just("n"), setop, st.just("nf"), st.builds(lambda s: ["sf", s], spec),
                    st.builds(lambda v: ["v", v], st.integers(0, 1756)))
     flat = st.integers(0, MAX_STEPS).flatmap(lambda k: st.lists(op, min_size=k, max_size=MAX_STEPS))
     # run-length form: (optional update, then r requests), repeated
